@@ -23,6 +23,9 @@ SHAPES = {
     "deep2": ["name/p/q/r/a", "name/p/b"],
     "samedir2": ["name/d/a", "name/d/b"],
     "samename2": ["name/d1/t.dat", "name/d2/t.dat"],   # two different files with the same base name          # two files in one sub-directory
+    "hidden2": ["name/.hidden", "name/.d/x"],
+    "grown3": ["name/a", "name/d/b", "name/d/zz-new"],   # third file appears between two creates (C01 history job)
+    "ungrouped3": ["name/d/a", "name/x", "name/d/b"],   # a v1 file list that is not grouped by directory      # dot files and dot directories
     "dir1": ["name/a"],                             # a directory holding exactly one file
     "case2": ["name/README", "name/readme"],       # names that collide when case is folded
     "selfname": ["name/name", "name/z"],          # a file called like the torrent inside the payload root
